@@ -1,10 +1,205 @@
-(* C08 - placeholder while the proofs are being developed *)
-From Verif Require Import Syn.Lex Syn.Expr.
-From Coq Require Import List NArith.
+(* C08 - cue fmt is idempotent and never changes what a file means (expression
+   level; the C07 items about precedence printing and token separation).
+   This file contains only statements, closed by [exact], and Print Assumptions. *)
+From Verif Require Import Syn.Lex Syn.LexProofs Syn.Expr Syn.Basics Syn.Proofs Syn.Space Syn.Examples.
+From Coq Require Import List NArith Bool.
 Import ListNotations.
 
-Example C08_example_print_parse :
-  parse (print1 (EBin MUL (EBin ADD (EAtom (TIdent [97%N])) (EAtom (TIdent [98%N]))) (EAtom (TIdent [99%N]))))
-  = Some (EBin MUL (EParen (EBin ADD (EAtom (TIdent [97%N])) (EAtom (TIdent [98%N])))) (EAtom (TIdent [99%N]))).
-Proof. vm_compute. reflexivity. Qed.
-Print Assumptions C08_example_print_parse.
+(* ---- tokens ------------------------------------------------------------- *)
+
+(* a token sequence in which every pair printed without a blank is allowed by the
+   separation table scans back to exactly the same tokens *)
+Theorem C08_scan_render : forall ts, Forall tok_wf (map snd ts) -> separated ts = true ->
+  scan (render ts) = Some (map snd ts).
+Proof. exact scan_render. Qed.
+Print Assumptions C08_scan_render.
+
+(* F3: `<` followed by unary `-` needs a blank, glued it is the arrow token *)
+Theorem C08_lss_sub_needs_sep :
+  needs_sep (TOp LSS) (TOp SUB) = true /\
+  scan (render [(false, TOp LSS); (false, TOp SUB); (false, TInt [49%N])]) = Some [TOp ARROW; TInt [49%N]] /\
+  scan (render [(false, TOp LSS); (true, TOp SUB); (false, TInt [49%N])]) = Some [TOp LSS; TOp SUB; TInt [49%N]].
+Proof. exact lss_sub_needs_sep. Qed.
+Print Assumptions C08_lss_sub_needs_sep.
+
+Theorem C08_int_period_needs_sep :
+  needs_sep (TInt [49%N]) (TP PERIOD) = true /\
+  scan (render [(false, TInt [49%N]); (false, TP PERIOD); (false, TIdent [97%N])]) = Some [TFloat [49%N; 46%N]; TIdent [97%N]] /\
+  scan (render [(false, TInt [49%N]); (true, TP PERIOD); (false, TIdent [97%N])]) = Some [TInt [49%N]; TP PERIOD; TIdent [97%N]].
+Proof. exact int_period_needs_sep. Qed.
+Print Assumptions C08_int_period_needs_sep.
+
+Theorem C08_underscore_or_needs_sep :
+  needs_sep (TIdent [95%N]) (TOp OR) = true /\
+  scan (render [(false, TIdent [95%N]); (false, TOp OR); (false, TIdent [95%N])]) = Some [TBottom].
+Proof. exact underscore_or_needs_sep. Qed.
+Print Assumptions C08_underscore_or_needs_sep.
+
+(* internal/pretty's unary merge test is exactly the separation table on pairs of
+   unary operators; printer.go's mayCombine misses exactly seven pairs *)
+Theorem C08_v2_unary_merges_exact : forall o o', In o unops -> In o' unops ->
+  v2_unary_merges o o' = needs_sep (TOp o) (TOp o').
+Proof. exact v2_unary_merges_exact. Qed.
+Print Assumptions C08_v2_unary_merges_exact.
+
+Theorem C08_v1_may_combine_missed_exactly : forall o o', In o unops -> In o' unops ->
+  (needs_sep (TOp o) (TOp o') = true /\ v1_may_combine (TOp o) (TOp o') = false) <-> In (o, o') v1_missed.
+Proof. exact v1_may_combine_missed_exactly. Qed.
+Print Assumptions C08_v1_may_combine_missed_exactly.
+
+(* ---- trees: printer V1 (cue/format/node.go) ------------------------------ *)
+
+(* parse (print e) = e for every parser-shaped tree *)
+Theorem C08_parse_print_wf : forall e, wf e -> parse (print1 e) = Some e.
+Proof. exact parse_print_wf. Qed.
+Print Assumptions C08_parse_print_wf.
+
+(* for EVERY tree of valid operators (any shape, ParenExpr nodes anywhere): the
+   printed tokens parse to the tree with exactly the printed parentheses *)
+Theorem C08_parse_print1 : forall e, valid e -> parse (print1 e) = Some (canon e 0).
+Proof. exact parse_print1. Qed.
+Print Assumptions C08_parse_print1.
+
+Theorem C08_unparen_canon : forall e q, unparen (canon e q) = unparen e.
+Proof. exact unparen_canon. Qed.
+Print Assumptions C08_unparen_canon.
+
+(* parse_print_expr: no parenthesis can be dropped or misplaced *)
+Theorem C08_parse_print_expr : forall e, valid e -> noparen e ->
+  exists e', parse (print1 e) = Some e' /\ unparen e' = e.
+Proof. exact parse_print_expr. Qed.
+Print Assumptions C08_parse_print_expr.
+
+(* what the parser returns is parser-shaped *)
+Theorem C08_parse_pwf : forall ts e, parse ts = Some e -> pwf e.
+Proof. exact parse_pwf. Qed.
+Print Assumptions C08_parse_pwf.
+
+(* idempotence: on trees ... *)
+Theorem C08_fmt1_print : forall e, valid e -> fmt1 (print1 e) = Some (print1 e).
+Proof. exact fmt1_print. Qed.
+Print Assumptions C08_fmt1_print.
+
+(* ... and on every token list (any redundant parentheses): one step reaches the normal form *)
+Theorem C08_fmt1_idempotent : forall ts ts', fmt1 ts = Some ts' -> fmt1 ts' = Some ts'.
+Proof. exact fmt1_idempotent. Qed.
+Print Assumptions C08_fmt1_idempotent.
+
+(* the tree is preserved up to the one documented normalisation ((x)) -> (x) *)
+Theorem C08_fmt1_preserves_tree : forall ts e, parse ts = Some e ->
+  exists ts', fmt1 ts = Some ts' /\ parse ts' = Some (collapse e).
+Proof. exact fmt1_preserves_tree. Qed.
+Print Assumptions C08_fmt1_preserves_tree.
+
+Theorem C08_unparen_collapse : forall e, unparen (collapse e) = unparen e.
+Proof. exact unparen_collapse. Qed.
+Print Assumptions C08_unparen_collapse.
+
+Theorem C08_collapse_wf_id : forall e, wf e -> collapse e = e.
+Proof. exact collapse_wf_id. Qed.
+Print Assumptions C08_collapse_wf_id.
+
+(* ---- printer V2 (internal/pretty, the default) --------------------------- *)
+
+Theorem C08_print2_eq_print1_when : forall e, v2_safe e = true -> print2 e = print1 e.
+Proof. exact print2_eq_print1_when. Qed.
+Print Assumptions C08_print2_eq_print1_when.
+
+Theorem C08_pwf_v2_safe : forall e, pwf e -> v2_safe e = true.
+Proof. exact pwf_v2_safe. Qed.
+Print Assumptions C08_pwf_v2_safe.
+
+(* so on every token list (format.Source) both formatters print the same tokens *)
+Theorem C08_fmt2_eq_fmt1 : forall ts, fmt2 ts = fmt1 ts.
+Proof. exact fmt2_eq_fmt1. Qed.
+Print Assumptions C08_fmt2_eq_fmt1.
+
+Theorem C08_fmt2_idempotent : forall ts ts', fmt2 ts = Some ts' -> fmt2 ts' = Some ts'.
+Proof. exact fmt2_idempotent. Qed.
+Print Assumptions C08_fmt2_idempotent.
+
+Theorem C08_fmt2_preserves_tree : forall ts e, parse ts = Some e ->
+  exists ts', fmt2 ts = Some ts' /\ parse ts' = Some (collapse e).
+Proof. exact fmt2_preserves_tree. Qed.
+Print Assumptions C08_fmt2_preserves_tree.
+
+(* but on trees WITHOUT ParenExpr nodes (format.Node on programmatic ASTs) V2 loses
+   a parenthesis (K3) and a grouping (K4) *)
+Theorem C08_print2_unary_postfix_refuted :
+  let e := ESel (EUn SUB ex_a) (TIdent [98%N]) in
+  valid e /\ noparen e /\
+  parse (print2 e) = Some (EUn SUB (ESel ex_a (TIdent [98%N]))) /\
+  parse (print1 e) = Some (ESel (EParen (EUn SUB ex_a)) (TIdent [98%N])).
+Proof. exact print2_unary_postfix_refuted. Qed.
+Print Assumptions C08_print2_unary_postfix_refuted.
+
+Theorem C08_print2_chain_refuted :
+  let e := EBin OR ex_a (EBin OR (EUn MUL ex_b) ex_c) in
+  valid e /\ noparen e /\
+  parse (print2 e) = Some (EBin OR (EBin OR ex_a (EUn MUL ex_b)) ex_c) /\
+  parse (print1 e) = Some (EBin OR ex_a (EParen (EBin OR (EUn MUL ex_b) ex_c))).
+Proof. exact print2_chain_refuted. Qed.
+Print Assumptions C08_print2_chain_refuted.
+
+(* ---- blanks --------------------------------------------------------------- *)
+
+(* if every pair the printer does not separate by a blank is allowed by the table,
+   the text reads back to the printed tokens whatever the layout engine chooses *)
+Theorem C08_sp_scan : forall l, Forall tok_wf (map snd l) -> sep_ok l = true ->
+  forall ch, scan (render (resolve ch 0 l)) = Some (map snd l).
+Proof. exact sp_scan. Qed.
+Print Assumptions C08_sp_scan.
+
+Theorem C08_v1_text_reads_back : forall e, valid e -> Forall tok_wf (print1 e) ->
+  sep_ok (sp1 e 0) = true -> forall ch,
+  scan (render (resolve ch 0 (sp1 e 0))) = Some (print1 e) /\ parse (print1 e) = Some (canon e 0).
+Proof. exact v1_text_reads_back. Qed.
+Print Assumptions C08_v1_text_reads_back.
+
+Theorem C08_v2_text_reads_back : forall e, valid e -> v2_safe e = true -> Forall tok_wf (print2 e) ->
+  sep_ok (sp2 MDisp e) = true -> forall ch,
+  scan (render (resolve ch 0 (sp2 MDisp e))) = Some (print2 e) /\ parse (print2 e) = Some (canon e 0).
+Proof. exact v2_text_reads_back. Qed.
+Print Assumptions C08_v2_text_reads_back.
+
+(* K1: formatter V1 prints `<-1` for `< -1`;  K2: formatter V2 prints `1.a` for `1 .a` *)
+Theorem C08_v1_glues_lss_sub_refuted :
+  let e := EUn LSS (EUn SUB one) in
+  valid e /\ Forall tok_wf (print1 e) /\
+  hazards (sp1 e 0) = [(TOp LSS, TOp SUB)] /\
+  scan (render (resolve (fun _ => true) 0 (sp1 e 0))) = Some [TOp ARROW; TInt [49%N]] /\
+  parse [TOp ARROW; TInt [49%N]] = None /\
+  hazards (sp2 MDisp e) = [] /\
+  scan (render (resolve (fun _ => true) 0 (sp2 MDisp e))) = Some (print2 e).
+Proof. exact v1_glues_lss_sub_refuted. Qed.
+Print Assumptions C08_v1_glues_lss_sub_refuted.
+
+Theorem C08_v2_glues_int_period_refuted :
+  let e := ESel one (TIdent [97%N]) in
+  valid e /\ Forall tok_wf (print2 e) /\
+  hazards (sp2 MDisp e) = [(TInt [49%N], TP PERIOD)] /\
+  scan (render (resolve (fun _ => true) 0 (sp2 MDisp e))) = Some [TFloat [49%N; 46%N]; TIdent [97%N]] /\
+  parse [TFloat [49%N; 46%N]; TIdent [97%N]] = None /\
+  hazards (sp1 e 0) = [] /\
+  scan (render (resolve (fun _ => true) 0 (sp1 e 0))) = Some (print1 e).
+Proof. exact v2_glues_int_period_refuted. Qed.
+Print Assumptions C08_v2_glues_int_period_refuted.
+
+(* ---- non-vacuity ---------------------------------------------------------- *)
+
+Example C08_example_wf_tree : wf ex_tree /\ parse (print1 ex_tree) = Some ex_tree /\ length (print1 ex_tree) = 29.
+Proof. exact ex_wf_tree. Qed.
+Print Assumptions C08_example_wf_tree.
+
+Example C08_example_redundant_parens :
+  parse ex_soup = Some ex_soup_tree /\ fmt1 ex_soup = Some ex_soup_fmt /\ fmt2 ex_soup = Some ex_soup_fmt /\
+  fmt1 ex_soup_fmt = Some ex_soup_fmt /\ parse ex_soup_fmt = Some (collapse ex_soup_tree) /\
+  collapse ex_soup_tree <> ex_soup_tree /\ length ex_soup = 15 /\ length ex_soup_fmt = 9.
+Proof. exact ex_redundant_parens. Qed.
+Print Assumptions C08_example_redundant_parens.
+
+Example C08_example_separated :
+  Forall tok_wf (map snd ex_sep) /\ separated ex_sep = true /\ scan (render ex_sep) = Some (map snd ex_sep) /\
+  sep_ok (sp1 ex_tree 0) = true /\ sep_ok (sp2 MDisp ex_tree) = true /\ Forall tok_wf (print1 ex_tree).
+Proof. exact ex_separated. Qed.
+Print Assumptions C08_example_separated.
